@@ -356,7 +356,7 @@ func runC16(res *lib.Result, tier string, seed int64, args []string) error {
 		if impl != model {
 			// a valid line of the documented syntax that the real parser no longer understands with its documented
 			// structure is a failing input of the property itself, not only a broken correspondence
-			failing := valid && !g.nestedArray && dropP(impl) != want
+			failing := valid && dropP(impl) != want
 			res.AddViolation("impl-vs-model", fmt.Sprintf("real parser %q, model %q", lib.Trunc(impl, 300), lib.Trunc(model, 300)), "---@"+line, !failing)
 			continue
 		}
@@ -367,13 +367,8 @@ func runC16(res *lib.Result, tier string, seed int64, args []string) error {
 		// (2) documented structure
 		if dropP(impl) != want {
 			caseText := fmt.Sprintf("---@%s\nunderstood as   %s\ndocumented form %s", line, dropP(impl), want)
-			switch {
-			case g.nestedArray:
-				res.HitKnown("C16-K1", "an array of arrays 'T[][]': only one '[]' suffix is read; the second '[' ends the type and the rest of the line is rejected or taken as comment", caseText)
-				res.Dist("hit.C16-K1")
-			default:
-				res.AddViolation("impl-vs-spec", "a line of the documented syntax is not understood with its documented structure", caseText, false)
-			}
+			// (arrays of arrays used to be excused here: finding K1, repaired)
+			res.AddViolation("impl-vs-spec", "a line of the documented syntax is not understood with its documented structure", caseText, false)
 			continue
 		}
 		// (3) print and read again (type-carrying statements)
@@ -404,7 +399,7 @@ func runC16(res *lib.Result, tier string, seed int64, args []string) error {
 				case g.hasConst:
 					res.HitKnown("C16-K3", "a quoted constant '\"r\"' is printed as \"r\", which is read back as the unquoted constant r", caseText)
 					res.Dist("hit.C16-K3")
-				case g.parenUnion || g.nestedArray:
+				case g.parenUnion:
 					res.HitKnown("C16-K4", "parentheses are not printed: '(A|B)[]' prints as 'A | B[]', which reads back as A | (B[])", caseText)
 					res.Dist("hit.C16-K4")
 				case canon == "canon=1":
